@@ -1,7 +1,7 @@
 SPECIFICATION MCSpec
 CONSTANTS
   MaxFrame = 3
-  ConsumeOversized = FALSE
+  DiscardOversized = TRUE
   MaxLen = 8
 INVARIANTS TypeOK InvConforms InvPrefix Emit
 CHECK_DEADLOCK FALSE
